@@ -13,7 +13,7 @@ ID = 'C16'
 LEAN_MODULE = 'Proofs.C16'
 THEOREMS = ['Fsic.C16.' + n for n in [
     'lag_spec', 'lead_eq_lag_neg', 'lead_spec', 'diff_spec', 'diff_zero', 'diff_neg', 'diff_full_false_at_witness',
-    'diff_spec_partial', 'dlog_def', 'length_preserved', 'lag_lead_pure', 'diff_pure', 'dlog_pure',
+    'diff_spec_partial', 'dlog_def', 'dlog_spec', 'length_preserved', 'lag_out_of_range', 'lag_zero', 'lag_lag', 'lag_lead_not_inverse', 'lag_lead_pure', 'diff_pure', 'dlog_pure',
     'positional_group_verbatim', 'positional_untouched', 'segments_cover', 'positional_expression_identity',
     'no_backtick_identity', 'resolve_index_label', 'bound_positional', 'resolve_labels_spec',
     'resolve_labels_spec_step', 'mixed_slice_positional_start', 'mixed_slice_positional_stop',
@@ -52,7 +52,7 @@ ASSUMPTIONS = ['1-D arrays (other ranks raise NotImplementedError; the property 
                'diff with d < 0 raises NotImplementedError: the property speaks only about d >= 0']
 
 META = {
-    "text": "Theorems for arrays of every length, every integer shift, every fill and element type: lag(x,p)[i] = x[i-p] inside / fill outside through the model of np.roll + Python slice assignment; lead = lag(-p); diff for d >= 1; dlog = diff(log x); length preserved; over a memory of array cells no helper writes to a pre-existing array (input never modified). For eval: a backticked label resolves to the position label indexing uses, label slices get an inclusive stop, every bracket group without a backtick is left verbatim wherever it stands in an expression (positional_untouched, full strength) and a backtick-free component of a mixed slice keeps its text (stop+1 only for a resolved label stop), precedence locals > variables > helpers, the package helper table is not written when builtins is None. FALSE of the code and proved as a negation at a witness with a _partial theorem (d >= 1): diff(x,0) returns x.",
+    "text": "Theorems for arrays of every length, every integer shift, every fill and element type: lag(x,p)[i] = x[i-p] inside / fill outside through the model of np.roll + Python slice assignment; lead = lag(-p); diff for d >= 1; dlog = diff(log x) and its pointwise form; length preserved; |p| >= n gives an all-fill array, p = 0 the input, same-direction lags compose to the lag by the sum (opposite directions do not: witness); over a memory of array cells no helper writes to a pre-existing array (input never modified). For eval: a backticked label resolves to the position label indexing uses, label slices get an inclusive stop, every bracket group without a backtick is left verbatim wherever it stands in an expression (positional_untouched, full strength) and a backtick-free component of a mixed slice keeps its text (stop+1 only for a resolved label stop), precedence locals > variables > helpers, the package helper table is not written when builtins is None. FALSE of the code and proved as a negation at a witness with a _partial theorem (d >= 1): diff(x,0) returns x.",
     "design_ref": "DESIGN.md §5 M6, §6 C16, §7 rows 12-13",
     "note": "Trusted: Lean kernel; axioms propext/Classical.choice/Quot.sound; the correspondence harness; NumPy float subtraction = IEEE; np.log, CPython eval, the re engine, pandas get_loc/in are inputs or tied by exhaustive comparison only. The model is tied to fsic/functions.py and VectorContainer.eval/_resolve_expression_indexes by exact comparison on the generated cases, not for all inputs. That the model's segmentation of an expression is what Python's re finds is covered by the exhaustive correspondence only. Known finding: diff-d0 (open); eval-positional-stop-shifted and eval-positional-nonliteral were fixed in /repo 98e0a48 - their oracle keys stay, so a regression is a new VIOLATION.",
     "technique": "Lean 4 proof (list lemmas for roll/slice-assign, memory-cell frame lemmas, case analysis of the index rewriting) + exhaustive differential correspondence + property oracle"
